@@ -674,11 +674,25 @@ fn c20(seed: u64, cases: usize, model_path: &str, thorough: bool) -> serde_json:
         let want = m.ask(&format!("prim transpose {rows} {}", hex(input))); evals += 1;
         *dist.entry(format!("transpose:{}", ["single-bit", "all-ones", "random", "random"][kind as usize])).or_default() += 1; *dist.entry(format!("transpose:cols%128={}", if cols % 128 == 0 { "0" } else { "nz" })).or_default() += 1;
         distinct.insert(format!("t/{rows}/{cols}/{kind}"));
+        // the algorithm model of portable.rs (subject of C20_transpose_portable) must agree with the real portable function byte for byte
+        let want_alg = m.ask(&format!("prim transposeP {rows} {}", hex(input))); evals += 1;
+        if let Ok(g) = std::panic::catch_unwind(|| v::transpose_portable(input, rows)) { if format!("transpose {}", hex(&g)) != want_alg { disagreements.push(json!({"what": "portable transpose: algorithm model vs real function", "rows": rows, "cols": cols, "input": hex(input)})); } }
         for (name, got) in [("dispatch", std::panic::catch_unwind(|| v::transpose_dispatch(input, rows))), ("portable", std::panic::catch_unwind(|| v::transpose_portable(input, rows)))] {
             match got { Ok(g) => if format!("transpose {}", hex(&g)) != want { let i = g.iter().zip(want[10..].as_bytes().chunks(2)).position(|(a, b)| format!("{a:02x}").as_bytes() != b).unwrap_or(0);
                     failures.push(json!({"witness": "C20:transpose", "failure": format!("{name} transpose differs from the exact transpose at output byte {i}"), "case": {"rows": rows, "cols": cols, "kind": kind, "input": hex(input)}})); }
                 Err(_) => failures.push(json!({"witness": "C20:transpose-panic", "failure": format!("{name} transpose panicked on an accepted shape"), "case": {"rows": rows, "cols": cols}})) } }
         if samples.len() < 1 { samples.push(json!({"transpose": {"rows": rows, "cols": cols, "kind": kind}})); }
+    }
+    // ---- the portable function alone accepts every multiple of 16 rows: small and odd block counts, against algorithm model and exact transpose
+    for case in 0..(if thorough { 60 } else { 14 }) {
+        let rows = [16usize, 32, 48, 80, 144, 16, 64][case % 7]; let cols = 8 * r.range(2, if case < 7 { 4 } else { 30 }) as usize; let nbytes = rows * cols / 8;
+        let input: Vec<u8> = (0..nbytes).map(|_| r.next() as u8).collect(); evals += 2; *dist.entry("transpose:portable-only-shape".into()).or_default() += 1; distinct.insert(format!("tp/{rows}/{cols}/{case}"));
+        let (alg, spec) = (m.ask(&format!("prim transposeP {rows} {}", hex(&input))), m.ask(&format!("prim transpose {rows} {}", hex(&input))));
+        match std::panic::catch_unwind(|| v::transpose_portable(&input, rows)) {
+            Ok(g) => { let got = format!("transpose {}", hex(&g));
+                if got != alg { disagreements.push(json!({"what": "portable transpose: algorithm model vs real function", "rows": rows, "cols": cols, "input": hex(&input)})); }
+                if got != spec { failures.push(json!({"witness": "C20:transpose", "failure": "portable transpose differs from the exact transpose", "case": {"rows": rows, "cols": cols, "input": hex(&input)}})); } }
+            Err(_) => failures.push(json!({"witness": "C20:transpose-panic", "failure": "portable transpose panicked on an accepted shape", "case": {"rows": rows, "cols": cols}})) }
     }
     // ---- clmul: all basis pairs (thorough) / sampled basis pairs, sparse, dense, all-ones, random
     let mut pairs: Vec<(u128, u128, &str)> = vec![(u128::MAX, u128::MAX, "all-ones"), (0, u128::MAX, "zero"), (1, u128::MAX, "one")];
